@@ -106,8 +106,17 @@ func (rt *runtime) newBoundFunctionObject(target *object, this Value, argumentLi
 	}
 	o.defineProperty("name", stringValue("bound "+target.get("name").String()), 0o000, false)
 	o.defineProperty(propertyLength, intValue(length), 0o000, false)
-	o.defineProperty("caller", Value{}, 0o000, false)    // TODO Should throw a TypeError
-	o.defineProperty("arguments", Value{}, 0o000, false) // TODO Should throw a TypeError
+	// 15.3.4.5 steps 20-21: "caller" and "arguments" are accessor properties whose
+	// get and set are the [[ThrowTypeError]] function (13.2.3).
+	thrower := rt.newNativeFunction("ThrowTypeError", "internal", 0, func(call FunctionCall) Value {
+		panic(call.runtime.panicTypeError("'caller' and 'arguments' may not be accessed on a bound function"))
+	})
+	for _, name := range []string{"caller", "arguments"} {
+		o.defineOwnProperty(name, property{
+			value: propertyGetSet{thrower, thrower},
+			mode:  0o000,
+		}, false)
+	}
 	return o
 }
 
